@@ -347,6 +347,31 @@ def val_family(seed, n, maxlen=3, budget=8000):
     return out
 
 
+def catch_family(seed, n, maxlen=2, budget=1500):
+    """optional/many/some arguments with `catch` (C06: the one documented exception): typed and environment values"""
+    rnd = random.Random(seed)
+    out = []
+    while len(out) < n:
+        i = len(out)
+        a = ["opt", "many", "some"][i % 3]
+        vt = ["int", "str"][(i // 3) % 2]
+        it = ar("k0", a, vt, "-k", "--kval", guard=(vt == "str" or i % 2 == 0), env=("BPAF_VERIF_V0" if i % 2 else ""))
+        it["catch"] = True
+        others = [sw("o1", "-o")] if i % 4 < 2 else [ar("o1", "opt", "int", "-o")]
+        shape = (i // 2) % 3
+        if shape == 0:
+            lvl = level([it] + others, NOTAIL)
+        elif shape == 1:
+            lvl = level(others + [it], postail(pos("p0", "opt")))
+        else:
+            lvl = level([it], cmdtail([cmd("one", level(others, NOTAIL))], optional=True))
+        d = mkdef(f"catch{seed}_{i}", lvl, maxlen=maxlen, extras=("unk",), spells=("sep", "eq"),
+                  words=("1", "2", "x"), envvals=("UNSET", "1", "x", "2"))
+        trim_to_budget(d, budget)
+        out.append(d)
+    return out
+
+
 # ---------------------------------------------------------------- environment fallback (C18)
 def env_family(seed, n, maxlen=3, budget=6000):
     rnd = random.Random(seed)
